@@ -706,8 +706,18 @@ func c08Eval(ctx *vkit.Ctx, cs *vkit.Case, x *vexec.Exec, g *c08Gen, ix, prov st
 	ctx.Count("prov."+prov, 1)
 	// one log line per provenance (the expressions themselves are logged once, when they are
 	// generated): logging every call made the ops logs of a thorough run several GB
+	// the answer of every expression before the reads of c08Reads are served (compared below with
+	// the answer after them: no update lies in between)
+	before := make([][]string, len(exprs))
+	for i, e := range exprs {
+		if got, err := x.E.VFilter(ix, e.Text, limit); err == nil {
+			sort.Strings(got)
+			before[i] = append([]string{}, got...)
+		}
+	}
+	readCalls := c08Reads(ctx, cs, x, g, ix, prov, exprs)
 	cs.Op("[%s] evaluate expr[0..%d): VFilter(%s, expr, %d) and VSearch(%s, q, k=%d, expr)", prov, len(exprs), ix, limit, ix, max(n, 1))
-	for _, e := range exprs {
+	for ei, e := range exprs {
 		want := map[string]bool{}
 		for _, id := range ids {
 			if e.Match(mi.Recs[id].Meta) {
@@ -728,6 +738,15 @@ func c08Eval(ctx *vkit.Ctx, cs *vkit.Case, x *vexec.Exec, g *c08Gen, ix, prov st
 		gotSet := map[string]bool{}
 		for _, id := range got {
 			gotSet[id] = true
+		}
+		// "depends only on the current metadata": the same call before and after a series of
+		// searches (no update in between) gives the same ids
+		if after := vexec.SortedKeys(gotSet); len(readCalls) > 0 && before[ei] != nil && len(got) == len(gotSet) && !reflect.DeepEqual(after, before[ei]) && len(after)+len(before[ei]) > 0 {
+			c08Witness(cs, prov, e, mi, want, got)
+			cs.Attach("answer_before_the_reads", before[ei])
+			cs.Attach("reads_served_in_between", readCalls)
+			cs.Fail("[%s] VFilter(%q) = %v before and %v after %d searches that used filters (with a graph scope, a text query, efSearch, k < n) and no update in between: the answer depends on the reads served before, not only on the current metadata (documented semantics give %v; the searches are listed under reads_served_in_between)",
+				prov, e.Text, before[ei], after, len(readCalls), vexec.SortedKeys(want))
 		}
 		// "returns precisely the live ids": an id is returned once, not once per internal node
 		// that ever carried it
@@ -827,6 +846,113 @@ func c08Eval(ctx *vkit.Ctx, cs *vkit.Case, x *vexec.Exec, g *c08Gen, ix, prov st
 			}
 		}
 	}
+}
+
+// c08Rels: relation names of the links a case may add between its records (the graph scope of a search).
+var c08Rels = []string{"next", "ref"}
+
+// c08Reads: "the answer depends only on the current metadata, not on how the state was reached" -
+// the way a state is reached includes the READS served before. In every provenance, before the
+// expressions are compared with the reference, each of them (or one of its clauses on its own:
+// every clause is a well-formed expression too) is used once as the filter of a search with
+// other options than the plain VSearch of c08Eval: a graph scope (root, relations, direction,
+// depth) next to the filter, a text query next to the filter (hybrid, or text only with a zero
+// query vector), efSearch, k below n, VSearchGraph with hydrated connections. What is asserted
+// here: every id returned satisfies the filter (the other options only narrow the answer). What it
+// is for: the exact comparison that follows sees whatever these reads left behind.
+func c08Reads(ctx *vkit.Ctx, cs *vkit.Case, x *vexec.Exec, g *c08Gen, ix, prov string, exprs []c08Expr) (calls []string) {
+	r := g.r
+	mi := x.M.Idx[ix]
+	n := len(mi.Recs)
+	if n == 0 {
+		return nil
+	}
+	ids := vexec.SortedKeys(mi.Recs)
+	cs.Op("[%s] reads with a graph scope / a text query / efSearch / k < n next to the filter, for expr[0..%d) or one clause of it", prov, len(exprs))
+	for _, whole := range exprs {
+		e := whole
+		if r.Chance(0.4) { // one clause on its own
+			blk := vkit.Pick(r, whole.Blocks)
+			c := vkit.Pick(r, blk)
+			e = c08Expr{Blocks: [][]c08Clause{{c}}, Text: g.renderClause(c)}
+			ctx.Count("reads.single_clause", 1)
+		}
+		want := map[string]bool{}
+		for _, id := range ids {
+			if e.Match(mi.Recs[id].Meta) {
+				want[id] = true
+			}
+		}
+		var gq *engine.GraphQuery
+		if r.Chance(0.6) {
+			gq = &engine.GraphQuery{RootID: vkit.Pick(r, g.ids), Direction: vkit.Pick(r, []string{"", "out", "in", "both"}), MaxDepth: r.Intn(4)}
+			switch r.Intn(3) {
+			case 0:
+				gq.Relations = []string{c08Rels[0]}
+			case 1:
+				gq.Relations = append([]string{}, c08Rels...)
+			default:
+				gq.Relations = []string{c08Rels[1], "none"}
+			}
+			ctx.Count("reads.graph_scope", 1)
+		}
+		text, alpha := "", 1.0
+		q := g.vec()
+		if r.Chance(0.3) {
+			text = vkit.Pick(r, []string{"red", "blue", "light blue", "the green"})
+			alpha = vkit.Pick(r, []float64{0, 0.3, 0.5, 1})
+			if r.Chance(0.3) {
+				q = make([]float32, g.dim) // text only
+			}
+			ctx.Count("reads.text_query", 1)
+		}
+		ef := vkit.Pick(r, []int{0, 0, 1, 10, 200})
+		k := n
+		if r.Chance(0.3) {
+			k = r.Range(1, n)
+		}
+		var res []string
+		var err error
+		var call string
+		if r.Chance(0.25) {
+			hyd := r.Chance(0.5)
+			call = fmt.Sprintf("[%s] VSearchGraph(%s, %v, k=%d, filter=%q, text=%q, ef=%d, alpha=%v, relations=%v, hydrate=%v, graph=%s)", prov, ix, q, k, e.Text, text, ef, alpha, c08Rels, hyd, vkit.JSON(gq))
+			cs.Attach("current_call", call)
+			var gr []engine.GraphSearchResult
+			gr, err = x.E.VSearchGraph(ix, q, k, e.Text, text, ef, alpha, c08Rels, hyd, gq)
+			for _, h := range gr {
+				res = append(res, h.ID)
+			}
+		} else {
+			call = fmt.Sprintf("[%s] VSearch(%s, %v, k=%d, filter=%q, text=%q, ef=%d, alpha=%v, graph=%s)", prov, ix, q, k, e.Text, text, ef, alpha, vkit.JSON(gq))
+			cs.Attach("current_call", call)
+			res, err = x.E.VSearch(ix, q, k, e.Text, text, ef, alpha, gq)
+		}
+		ctx.Count("reads.calls", 1)
+		calls = append(calls, call)
+		if err != nil {
+			if strings.Contains(err.Error(), "filter") {
+				c08Witness(cs, prov, e, mi, want, nil)
+				cs.Fail("%s rejected a well-formed expression: %v", call, err)
+			}
+			ctx.Count("reads.error_not_about_the_filter", 1) // not C08's business (C06 judges the search options)
+			continue
+		}
+		if len(res) > 0 {
+			ctx.Count("reads.nonempty", 1)
+		}
+		for _, id := range res {
+			if !want[id] {
+				c08Witness(cs, prov, e, mi, want, res)
+				why := "<not live>"
+				if rec := mi.Recs[id]; rec != nil {
+					why = vexec.CanonJSON(rec.Meta)
+				}
+				cs.Fail("%s returned %s (%s) which does not satisfy the filter; reference set %v, result %v", call, id, why, vexec.SortedKeys(want), res)
+			}
+		}
+	}
+	return calls
 }
 
 func c08Witness(cs *vkit.Case, prov string, e c08Expr, mi *vexec.MIndex, want map[string]bool, got []string) {
@@ -950,6 +1076,18 @@ func c08Run(ctx *vkit.Ctx, cs *vkit.Case, varyKeys bool, history func(x *vexec.E
 	histKinds := x.KindKey()
 	histNotes := strings.Join(g.notes, ",")
 	histOps := append([]string{}, cs.Ops()...)
+
+	// links between live records (the graph scope of the reads of c08Reads follows them); the
+	// later deletes of the pipeline cascade over them
+	if live := vexec.SortedKeys(x.M.Idx[ix].Recs); len(live) >= 2 && cs.R.Chance(0.7) {
+		ctx.Count("variant.links", 1)
+		for i, nl := 0, cs.R.Range(1, 6); i < nl; i++ {
+			src, tgt := vkit.Pick(cs.R, live), vkit.Pick(cs.R, live)
+			if src != tgt {
+				x.VLink(ix, src, tgt, vkit.Pick(cs.R, c08Rels), "", 1, nil)
+			}
+		}
+	}
 
 	nexpr := ctx.N(40, 80)
 	exprs := g.exprs(cs, x.M.Idx[ix], nexpr)
@@ -1261,6 +1399,10 @@ func TestVerifC08(t *testing.T) {
 			})
 		})
 		ctx.Group("lenient", ctx.N(32, 200), func(cs *vkit.Case) { c08Lenient(ctx, cs) })
+		ctx.Group("concurrent", ctx.N(160, 3000), func(cs *vkit.Case) { c08Concurrent(ctx, cs) })
+		if ctx.Counter("concurrent.evals") > 0 && ctx.Counter("concurrent.evals.overlapping_a_write") == 0 {
+			ctx.Inconclusive("group concurrent: no filter evaluation overlapped a metadata update in this shard")
+		}
 	})
 }
 
